@@ -115,6 +115,7 @@ func (h *Harness) configure(record bool) func(src simrt.Source) simrt.Config {
 		sw := swarmSwitch[src.Choose(len(swarmSwitch), "cfg.switch")]
 		c := simrt.Config{SwitchNum: sw[0], SwitchDen: sw[1], Record: record, MaxSteps: h.MaxSteps, Debug: os.Getenv("VERIF_DEBUG") != ""}
 		c.Strategy = src.Choose(3, "cfg.strategy")
+		c.MemYields = src.Choose(3, "cfg.memyields") == 1 // one run in three also switches at plain shared-memory accesses
 		if !h.NoDelays && len(h.DelayPalette) > 0 {
 			switch src.Choose(3, "cfg.delay") {
 			case 1:
